@@ -7,15 +7,15 @@ from pbt.common import Result, cut
 
 ID = "C07"
 LEVEL = "exploration"
-TOL = {"factor_on_requested_tolerance": 10.0, "rounding_floor_rel": 1e-11}
+TOL = {"factor_on_requested_tolerance": 10.0, "rounding_floor_rel": 2e-10}
 RULE = ("operators of the three classes the emulators exponentiate: -i*dt*H (H Hermitian: dense random, banded, "
         "degenerate, block-diagonal with invariant subspaces so that happy breakdown occurs, Rydberg-like diagonal+"
-        "flip structure), -i*dt*(H - iG/2) with G PSD, dt*Lindbladian of small random open systems; dimension 1..256, "
+        "flip structure, blockade-like = widely spread diagonal with weak flips and v = basis state + small amplitudes on high-energy states), -i*dt*(H - iG/2) with G PSD, dt*Lindbladian of small random open systems; dimension 1..256, "
         "norm ||A|| from 1e-3 to 60; v random / eigenvector / block-supported / basis vector, any norm; tolerance "
         "1e-4..1e-12 (norm_tolerance = exp_tolerance as every caller does); max_krylov_dim 1..100; is_hermitian set "
         "truthfully; oracle scipy.linalg.expm(A) @ v; non-trivial = dim >= 4 and ||A|| >= 0.1; distinct = case hash")
 ASSUMPTIONS = ["matrices are built from the case's integer seed with numpy's PCG64 (pure function of the case)",
-               "rounding floor 1e-11*|v| added to the 10*tol*|v| bound"]
+               "rounding floor 2e-10*|v| added to the 10*tol*|v| bound (Lanczos without re-orthogonalisation amplifies rounding when a sub-diagonal entry is just above the breakdown threshold)"]
 
 
 def budget(tier):
@@ -30,11 +30,25 @@ def _cases(draw):
         dim = 4**nq
     else:
         dim = draw(st.one_of(st.integers(1, 8), st.integers(1, 64), st.integers(1, 256)))
+    struct = draw(st.sampled_from(["dense", "banded", "degenerate", "blocks", "rydberg", "lowrank", "blockade", "blockade"]))
+    vkinds = ["random", "random", "eigvec", "block", "basis", "two_eig", "near_basis"]
+    if struct == "blockade":
+        vkinds = ["near_basis", "near_basis", "near_basis", "random", "basis"]
+    if struct == "blockade" and draw(st.booleans()):
+        # aim the tolerance at the window where a first-order estimate and the true error differ most
+        import math
+        hi_amp = 10.0 ** draw(st.integers(-6, -2))
+        norm = draw(st.sampled_from([0.3, 0.7, 1.0, 3.0, 10.0, 30.0]))
+        k = int(math.floor(math.log10(hi_amp * min(norm, 3.0) ** 2 / 2))) - draw(st.integers(1, 2))
+        return {"cls": "herm", "dim": draw(st.integers(4, 64)), "struct": struct,
+                "offdiag": 10.0 ** draw(st.integers(-6, -3)), "hi_amp": hi_amp, "norm": norm, "vkind": "near_basis",
+                "vnorm": draw(st.sampled_from([1.0, 1.0, 37.5])), "tol": 10.0 ** max(-12, min(-4, k)), "kdim": 100,
+                "seed": draw(st.integers(0, 2**31 - 1)), "nblocks": 2}
     return {
-        "cls": cls, "dim": dim,
-        "struct": draw(st.sampled_from(["dense", "banded", "degenerate", "blocks", "rydberg", "lowrank"])),
+        "cls": cls, "dim": dim, "struct": struct,
+        "offdiag": 10.0 ** draw(st.integers(-5, -1)), "hi_amp": 10.0 ** draw(st.integers(-6, -2)),
         "norm": draw(st.one_of(st.sampled_from([1.0, 10.0, 0.1]), st.floats(1e-3, 60.0))),
-        "vkind": draw(st.sampled_from(["random", "random", "eigvec", "block", "basis", "two_eig"])),
+        "vkind": draw(st.sampled_from(vkinds)),
         "vnorm": draw(st.sampled_from([1.0, 1.0, 1e-3, 37.5, 1e4])),
         "tol": 10.0 ** draw(st.integers(-12, -4)),
         "kdim": draw(st.one_of(st.just(100), st.integers(1, 100), st.integers(1, 12))),
@@ -79,6 +93,18 @@ def _herm(rng, dim, struct, nblocks):
                 j = i ^ (1 << b)
                 if j < dim:
                     H[i, j] += 0.5
+    elif struct == "blockade":
+        # what a weakly driven, strongly interacting register looks like: widely spread diagonal (interaction
+        # energies), weak flip couplings; filled in by the caller with case["offdiag"]
+        diag = np.sort(np.abs(rng.normal(size=dim))) * rng.choice([1.0, 10.0, 100.0])
+        diag[0] = 0.0
+        H = np.diag(diag).astype(complex)
+        nb = max(1, int(np.ceil(np.log2(dim))))
+        for b in range(nb):
+            for i in range(dim):
+                j = i ^ (1 << b)
+                if j < dim:
+                    H[i, j] += 1.0  # scaled by the caller
     else:  # blocks: invariant subspaces
         sizes = [dim // nblocks] * nblocks
         sizes[-1] += dim - sum(sizes)
@@ -116,6 +142,9 @@ def check_case(case) -> Result:
         herm_flag = False
     else:
         H, blocks = _herm(rng, dim, case["struct"], case["nblocks"])
+        if case["struct"] == "blockade" and dim >= 4:
+            dg = np.diag(np.diag(H))
+            H = dg + (H - dg) * case["offdiag"] * max(1e-12, np.abs(dg).max())
         if cls == "eff":
             g = rng.normal(size=(dim, max(1, dim // 3))) + 1j * rng.normal(size=(dim, max(1, dim // 3)))
             G = g @ g.conj().T
@@ -145,6 +174,9 @@ def check_case(case) -> Result:
     elif vk == "basis":
         v = np.zeros(dim, dtype=complex)
         v[rng.integers(0, dim)] = 1
+    elif vk == "near_basis":  # mostly the lowest basis state, small amplitudes elsewhere (incl. high-energy states)
+        v = v * case["hi_amp"]
+        v[0] = 1.0
     if np.linalg.norm(v) == 0:
         v[0] = 1
     v = v / np.linalg.norm(v) * case["vnorm"]
@@ -169,7 +201,17 @@ def check_case(case) -> Result:
     if res.converged:
         r.label("converged")
         if not err <= bound:
-            r.fail("converged_but_inaccurate" + (":breakdown" if res.happy_breakdown else ""),
+            kind = "converged_but_inaccurate"
+            if res.happy_breakdown:
+                kind += ":breakdown"
+            else:
+                # would the reference (Expokit) estimate, with the norm of A applied to the newest Krylov vector,
+                # have accepted this order?  If not, this is the known stopping-rule finding.
+                from pbt.oracles import krylov_model
+
+                est = krylov_model.expokit_estimate(A, v, res.iteration_count)
+                kind += ":estimate_uses_previous_vector_norm" if est >= tol else ":other"
+            r.fail(kind,
                    f"|res-exact|={err:.3e} > 10*tol*|v|+floor={bound:.3e} (tol={tol:g}, |v|={vn:g}, dim={dim}, |A|={case['norm']:g}, "
                    f"iters={res.iteration_count}, hermitian={herm_flag})")
     else:
@@ -179,13 +221,9 @@ def check_case(case) -> Result:
         pub = krylov_exp(lambda x: At @ x, torch.tensor(v, dtype=torch.complex128), exp_tolerance=tol, norm_tolerance=tol,
                          is_hermitian=herm_flag, max_krylov_dim=kdim)
         if not res.converged:
-            perr = np.linalg.norm(pub.numpy() - exact)
-            if not perr <= bound:
-                r.fail("public_returned_unconverged_inaccurate", f"krylov_exp returned a vector with error {perr:.3e} although impl reports non-convergence")
-        else:
-            perr = np.linalg.norm(pub.numpy() - exact)
-            if not perr <= bound:
-                r.fail("public_inaccurate", f"error {perr:.3e} > {bound:.3e}")
+            r.fail("public_returned_although_not_converged", "krylov_exp returned a vector although the implementation reports non-convergence")
+        elif np.linalg.norm(pub.numpy() - res.result.numpy()) > 1e-12 * vn:
+            r.fail("public_differs_from_impl", "krylov_exp and krylov_exp_impl returned different vectors")
     except RecursionError:
         if res.converged:
             r.fail("public_raised_though_converged", "krylov_exp raised although impl converged")
